@@ -43,6 +43,7 @@ import DateutilVerif.Model.CacheNested
 import DateutilVerif.Proofs.CacheNestedStep
 import DateutilVerif.Proofs.CacheNestedInit
 import DateutilVerif.Proofs.CacheNestedProgress
+import DateutilVerif.Generated.RRBaseCache
 
 namespace C11
 open Cache Queries
@@ -330,6 +331,41 @@ example : (let ns := Nested.run nestedShared.1 nestedShared.2 (List.replicate 40
 example : (let ns := Nested.run nestedOwn.1 nestedOwn.2 (List.replicate 150 0)
            (Nested.finished ns (1, 0), ns.sets.map (fun S => S.st.sh.cache), Nested.deadlocked ns nestedOwn.2))
           = (true, [[0, 10, 20]], false) := by decide +kernel
+
+/-! ### the machine IS the translated source
+
+`Gen.iterCachedProgram` (Generated/RRBaseCache.lean) is `rrulebase._iter_cached` as `harness/translate_rrbase.py` reads it
+from /repo's working tree on every run: one node per statement that is a pause point of the tracer — its program counter,
+what the statement does (a strict vocabulary; anything else is Untranslatable) and where control goes, from the nesting of
+the source (while / if / try-finally / try-except / for / break).  Its meaning is `CachePy.stepProg`. -/
+
+/-- **program_sim.** At EVERY program counter of `_iter_cached` and on EVERY state, the statement of the translated program
+    does exactly what the machine `Cache.stepIter` does (same shared state, same locals, same next pc; blocked exactly when
+    the machine is).  Hence `inv_step`, `safety`, `no_deadlock`, `progress`, `finished_answer`, … above are theorems about
+    the statements as translated, not about a hand-aligned listing: a changed statement, order, batch size, handler or
+    branch target breaks THIS obligation (or the translation) on the next run. -/
+theorem program_sim (sh : Shared) (t : Tid) (it : Iter) (h : CachePy.bodyPC it.pc = true) :
+    CachePy.stepProg Gen.iterCachedProgram sh t it = stepIter sh t it := by
+  unfold CachePy.stepProg stepIter
+  cases hpc : it.pc <;> rw [hpc] at h <;> simp only [CachePy.bodyPC] at h <;> try (cases h)
+  all_goals simp only [CachePy.nodeAt, Gen.iterCachedProgram, List.find?, CachePy.stepNode, step138]
+  all_goals first | rfl | (split <;> first | rfl | (split <;> first | rfl | (split <;> rfl)))
+
+/-- the whole machine with the body of `_iter_cached` executed by the translated program is the machine of the theorems
+    (what the driver op `cache.trun` runs against the real generators) -/
+theorem translated_machine_eq : CachePy.stepIterT Gen.iterCachedProgram = stepIter := by
+  funext sh t it
+  unfold CachePy.stepIterT
+  split
+  · rename_i h; exact program_sim sh t it h
+  · rfl
+
+-- every program counter of the generator body has a node; the batch size is the source's
+example : (Gen.iterCachedProgram.map (·.pc)).length = 24 ∧ (CachePy.nodeAt Gen.iterCachedProgram .l137).map (·.op) = some (.forRange 10) := by decide
+-- the obligation distinguishes programs: without the read-ahead handler E escapes although the consumer's value is there
+example : CachePy.stepNode { pc := .l138, op := .appendNext false, next := .l137, alt := .l139, exc := .l144 }
+            { initShared [7] (some .ZeroDivisionError) with cache := [7], genPos := 1, lock := some 0 } 0 { q := .iterAll, pc := .l138, i := 0, j := 1 }
+          ≠ stepIter { initShared [7] (some .ZeroDivisionError) with cache := [7], genPos := 1, lock := some 0 } 0 { q := .iterAll, pc := .l138, i := 0, j := 1 } := by decide
 
 /-! ### the underlying generator raises: cached = uncached (D-C11-genraise repaired in /repo) -/
 
